@@ -9,7 +9,9 @@ rm -rf "$W"
 mkdir -p "$W"
 ( cd "$W" && coqc -Q ../../../coq SQV "../../$NAME/Extract.v" > extract.log 2>&1 ) || { cat "$W/extract.log"; exit 1; }
 rm -f "$NAME"/Extract.vo "$NAME"/Extract.glob "$NAME"/.Extract.aux "$NAME"/Extract.vok "$NAME"/Extract.vos
+# the case-language reader (cases.ml, sexp.ml) is shared: every extraction uses main's unless it brings its own
+case "$NAME" in main|ddl) cp main/cases.ml main/sexp.ml "$W/" ;; esac
 cp util.ml "$NAME"/*.ml "$W/"
-EXTRA=$(cd "$NAME" && ls *.ml | grep -v "^driver.ml$" | sort -r | tr "\n" " ")
+EXTRA=$(cd "$W" && ls *.ml | grep -v "^driver.ml$\|^model.ml$\|^util.ml$" | sort -r | tr "\n" " ")
 ( cd "$W" && ocamlfind ocamlopt -O2 -w -a model.mli model.ml util.ml $EXTRA driver.ml -o "../$NAME.exe" 2>/dev/null \
   || ocamlfind ocamlopt -w -a model.mli model.ml util.ml $EXTRA driver.ml -o "../$NAME.exe" )
